@@ -40,6 +40,17 @@ type Ctx struct {
 	WithCtl    bool
 	fnByKey    map[string]*ssa.Function
 	ifaceCache map[string]*types.Interface
+	wireTaint  map[ssa.Value]bool // values derived from a received heads list (set by T1)
+	lockMemo   *lockMemo
+	allFnsMemo map[*ssa.Function]bool
+}
+
+// allFns: every function of the program, dependencies included.
+func (c *Ctx) allFns() map[*ssa.Function]bool {
+	if c.allFnsMemo == nil {
+		c.allFnsMemo = ssautil.AllFunctions(c.Prog)
+	}
+	return c.allFnsMemo
 }
 
 func (c *Ctx) note(f string, a ...interface{}) { c.Notes = append(c.Notes, fmt.Sprintf(f, a...)) }
